@@ -24,7 +24,10 @@ META = {
 
 def model_kw(tier):
   return dict(max_nodes=12 if tier == 'thorough' else 8, max_subgraphs=2,
-              reuse_const=True, share_buffers=False, dedup=True)
+              reuse_const=True, share_buffers=False, dedup=True,
+              # incl. all-zero / tiny / huge / lattice constants: degenerate weight
+              # channels and biases far from the scale product
+              const_styles=G.CONST_STYLES_SANE * 3 + G.CONST_STYLES_ALL)
 
 
 def check_case(case):
